@@ -59,11 +59,7 @@ class UsageExecNode:
         #     raise TawaziTypeError(f"{xn} didn't run, hence its result is not indexable. Check your DAG's config")
 
         if self.id in results:
-            xn_result = results[self.id]
-            # an ExecNode that didn't run (deactivated) yields None: so does every indexed / unpacked part of it
-            if xn_result is None and self.key:
-                return None
-            return reduce(lambda obj, key: obj.__getitem__(key), self.key, xn_result)
+            return reduce(lambda obj, key: obj.__getitem__(key), self.key, results[self.id])
         return None
 
     def __bool__(self) -> NoReturn:
